@@ -244,4 +244,221 @@ def evOf (g : Grammar) (sh : Shared) (th : Thread) : Option Ev :=
   | .rel _, _ => some .relP
   | _, _ => none
 
+
+/-! ## Part 3: event-level semantics (trace validation) -/
+
+def acquireR (sh : Shared) (t : Tid) : Option Shared :=
+  if sh.rOwner = none ∨ sh.rOwner = some t then
+    some { sh with rOwner := some t, rCount := sh.rCount + 1 }
+  else none
+
+def releaseR (sh : Shared) : Shared :=
+  { sh with rCount := sh.rCount - 1, rOwner := if sh.rCount ≤ 1 then none else sh.rOwner }
+
+/-- Effect of one logged event of thread `t`; `none` = the event is not possible in the model:
+    a lock acquired while another thread owns it, a cache/memo access without the lock the code takes for it
+    (`packrat_cache_lock` for the cache and for `reset_cache`'s `recursion_memos.clear()`; `recursion_lock`
+    for memo get/set/del in `Forward.parseImpl`), a returned value that differs from the dict contents, or an
+    eviction that is not FIFO. -/
+def evStep (sh : Shared) (t : Tid) : Ev → Option Shared
+  | .acqP => acquireP sh t
+  | .relP => if sh.pOwner = some t then some (releaseP sh) else none
+  | .acqR => acquireR sh t
+  | .relR => if sh.rOwner = some t then some (releaseR sh) else none
+  | .cget k r => if sh.pOwner = some t ∧ sh.cache.lookup k = r then some sh else none
+  | .cput k v => if sh.pOwner = some t then some { sh with cache := sh.cache.insert k v } else none
+  | .cpop k =>
+      match sh.size, sh.cache with
+      | some n, (k', _) :: _ =>
+          if sh.pOwner = some t ∧ k' = k ∧ sh.cache.length > n then some { sh with cache := sh.cache.erase k }
+          else none
+      | _, _ => none
+  | .cclear => if sh.pOwner = some t then some { sh with cache := [] } else none
+  | .mclear => if sh.pOwner = some t then some { sh with memo := [] } else none
+  | .mget k r => if sh.rOwner = some t ∧ sh.memo.lookup k = r then some sh else none
+  | .mset k v => if sh.rOwner = some t then some { sh with memo := sh.memo.insert k v } else none
+  | .mdel k =>
+      if sh.rOwner = some t then some (if sh.memoRetains then sh else { sh with memo := sh.memo.erase k })
+      else none
+  | .crash => none
+
+/-- index of the first event the model cannot perform, or `none` when the whole trace is a run;
+    at the end every `_FifoCache.set` must have finished evicting -/
+def accepts : Shared → Nat → List (Tid × Ev) → Option Nat
+  | _, _, [] => none
+  | sh, i, (t, e) :: rest =>
+      match evStep sh t e with
+      | none => some i
+      | some sh' => accepts sh' (i + 1) rest
+
+/-! ### executable runs of Part 2 under a schedule -/
+
+inductive Gran where
+  | region   -- a thread is pre-empted only where it acquires `packrat_cache_lock` without holding it
+  | event    -- ... before every logged event (`cpop` excepted: `_FifoCache.set` is one call)
+  deriving DecidableEq, Repr
+
+def visible (gran : Gran) (sh : Shared) (t : Tid) : Ev → Bool
+  | .acqP => gran = .event || sh.pOwner ≠ some t
+  | .cpop _ => false
+  | _ => gran = .event
+
+structure Cfg where
+  g : Grammar
+  gran : Gran
+  n : Nat            -- threads 0..n-1
+
+/-- thread `t` is parked at a visible event it can perform -/
+def parkedEnabled (c : Cfg) (s : State) (t : Tid) : Bool :=
+  match evOf c.g s.sh (s.thr t) with
+  | some e => visible c.gran s.sh t e && (tstep c.g s.sh t (s.thr t)).isSome
+  | none => false
+
+/-- run `t` while its next step is not a visible event (fuel bounded) -/
+def runSilent (c : Cfg) : Nat → State → Tid → List (Tid × Ev) → State × List (Tid × Ev)
+  | 0, s, _, tr => (s, tr)
+  | f + 1, s, t, tr =>
+      match evOf c.g s.sh (s.thr t) with
+      | some e =>
+          if visible c.gran s.sh t e then (s, tr)
+          else match step c.g s t with
+            | some s' => runSilent c f s' t ((t, e) :: tr)
+            | none => (s, tr)
+      | none =>
+          match step c.g s t with
+          | some s' =>
+              let tr' := if (s'.thr t).pc = .crash then (t, Ev.crash) :: tr else tr
+              runSilent c f s' t tr'
+          | none => (s, tr)
+
+/-- let `t` perform its pending visible event and run on to its next one -/
+def macroStep (c : Cfg) (fuel : Nat) (s : State) (t : Tid) (tr : List (Tid × Ev)) :
+    Option (State × List (Tid × Ev)) :=
+  if parkedEnabled c s t then
+    match evOf c.g s.sh (s.thr t), step c.g s t with
+    | some e, some s' => some (runSilent c fuel s' t ((t, e) :: tr))
+    | _, _ => none
+  else none
+
+def enabledList (c : Cfg) (s : State) : List Tid := (List.range c.n).filter (parkedEnabled c s)
+
+/-- follow `sched`; afterwards always the lowest enabled thread, until nobody is enabled -/
+def runSched (c : Cfg) (fuel : Nat) : Nat → State → List Tid → List (Tid × Ev) →
+    Option (State × List (Tid × Ev))
+  | 0, s, _, tr => some (s, tr)
+  | k + 1, s, sched, tr =>
+      match sched with
+      | t :: rest =>
+          match macroStep c fuel s t tr with
+          | some (s', tr') => runSched c fuel k s' rest tr'
+          | none => none
+      | [] =>
+          match enabledList c s with
+          | [] => some (s, tr)
+          | t :: _ =>
+              match macroStep c fuel s t tr with
+              | some (s', tr') => runSched c fuel k s' [] tr'
+              | none => none
+
+def startAll (c : Cfg) (fuel : Nat) (s : State) : State × List (Tid × Ev) :=
+  (List.range c.n).foldl (fun (p : State × List (Tid × Ev)) t => runSilent c fuel p.1 t p.2) (s, [])
+
+/-- all complete schedules (depth-first, at most `limit`) -/
+def explore (c : Cfg) (fuel : Nat) : Nat → State → List Tid → List (List Tid) → Nat → List (List Tid)
+  | 0, _, _, acc, _ => acc
+  | k + 1, s, pre, acc, limit =>
+      match enabledList c s with
+      | [] => pre.reverse :: acc
+      | en =>
+          en.foldl (fun acc t =>
+            if acc.length ≥ limit then acc
+            else match macroStep c fuel s t [] with
+              | some (s', _) => explore c fuel k s' (t :: pre) acc limit
+              | none => acc) acc
+
+/-! ## Part 4: left-recursion mode -/
+namespace LR
+
+/-- `Forward.parseImpl` (core.py:5691-5737) with `do_actions=True` at `loc 0` for a Forward whose body is a
+    terminal (its own parse does not touch shared state and yields `bodyVal` = a value determined by the
+    thread's INPUT), preceded by `reset_cache()`. Program counter = position in the event order:
+      0 acqP 1 cclear 2 mclear 3 relP                       reset_cache core.py:1031-1037
+      4 acqR                                                 core.py:5691
+      5 mget aT            hit: return it (→ 14)             core.py:5695-5698
+      6 mset aF seed  7 mset aT seed                         core.py:5704-5711
+      8 mset aT body  9 mset aF body                         core.py:5733, 5737 (first round: match got better)
+      10 mget aT           KeyError escapes if absent        core.py:5725 (second round: not better)
+      11 mset aF r  12 mdel aF  13 mdel aT                   core.py:5725-5726
+      14 relR → done r                                       core.py:5727 -/
+structure LThread where
+  inp : Nat
+  pc : Nat := 0
+  reg : Val := 0
+  result : Option Val := none     -- `some v`: returned v
+  keyError : Bool := false
+  deriving Repr, Inhabited, DecidableEq
+
+def aT : MKey := ⟨0, 0, true⟩
+def aF : MKey := ⟨0, 0, false⟩
+def seed : Val := 0
+def bodyVal (inp : Nat) : Val := inp + 1
+
+def nextEv (sh : Shared) (th : LThread) : Option Ev :=
+  if th.keyError ∨ th.result.isSome then none else
+  match th.pc with
+  | 0 => some .acqP | 1 => some .cclear | 2 => some .mclear | 3 => some .relP
+  | 4 => some .acqR
+  | 5 => some (.mget aT (sh.memo.lookup aT))
+  | 6 => some (.mset aF seed) | 7 => some (.mset aT seed)
+  | 8 => some (.mset aT (bodyVal th.inp)) | 9 => some (.mset aF (bodyVal th.inp))
+  | 10 => some (.mget aT (sh.memo.lookup aT))
+  | 11 => some (.mset aF th.reg) | 12 => some (.mdel aF) | 13 => some (.mdel aT)
+  | 14 => some .relR
+  | _ => none
+
+def advance (th : LThread) : Ev → LThread
+  | .mget _ r =>
+      if th.pc = 5 then
+        match r with
+        | some v => { th with pc := 14, reg := v }
+        | none => { th with pc := 6 }
+      else
+        match r with
+        | some v => { th with pc := 11, reg := v }
+        | none => { th with keyError := true }     -- KeyError propagates; `with` releases recursion_lock
+  | .relR => { th with pc := 15, result := some th.reg }
+  | _ => { th with pc := th.pc + 1 }
+
+structure LState where
+  sh : Shared
+  thr : List LThread
+  deriving Repr
+
+def lstep (s : LState) (t : Tid) : Option (LState × Ev) :=
+  match s.thr[t]? with
+  | none => none
+  | some th =>
+    match nextEv s.sh th with
+    | none => none
+    | some e =>
+      match evStep s.sh t e with
+      | none => none
+      | some sh' =>
+        let th' := advance th e
+        -- an escaping KeyError unwinds `with recursion_lock`
+        let sh'' := if th'.keyError then releaseR sh' else sh'
+        some (⟨sh'', s.thr.set t th'⟩, e)
+
+def lrun : LState → List Tid → List (Tid × Ev) → Option (LState × List (Tid × Ev))
+  | s, [], tr => some (s, tr.reverse)
+  | s, t :: rest, tr =>
+      match lstep s t with
+      | some (s', e) => lrun s' rest ((t, e) :: tr)
+      | none => none
+
+def linit (inputs : List Nat) : LState :=
+  ⟨{ memoRetains := true }, inputs.map fun i => { inp := i }⟩
+
+end LR
+
 end PP.Threads
